@@ -330,6 +330,11 @@ type (
 		F  Flag  `json:"f"`
 		PF *Flag `json:"pf,omitempty"`
 		SS []*Stamp
+		// the types with a default translation keep it next to the user's entries
+		T  time.Time
+		TP *time.Time `json:"tp,omitempty"`
+		L  slog.Level
+		RP *big.Rat
 	}
 )
 
